@@ -146,6 +146,34 @@ func H_C02_readonly() {
 			"read-only load is identical to the wrapped backend's")
 	}
 	cover("readonly")
+	// a later session of the same process (rebalance): the owner of the documents has
+	// saved progress in between; the read-only member must see the backend as it is now
+	fm.store[0] = vDoc("later0")
+	if choose("second-doc-appears", 2) == 1 {
+		fm.store[1] = vDoc("later1")
+	} else {
+		delete(fm.store, 1)
+	}
+	widen := choose("wider-assignment", 2) == 1
+	ids := []uint16{0, 1}
+	if widen {
+		fm.store[2] = vDoc("later2")
+		ids = []uint16{0, 1, 2}
+	}
+	a2, ea2, err2 := ro.Load(ids, "b")
+	b2, eb2, _ := fm.Load(ids, "b")
+	assert(err2 == nil && ea2 == eb2, "second session: same existence verdict")
+	for _, vb := range ids {
+		x, okx := a2.Load(vb)
+		y, oky := b2.Load(vb)
+		assert(okx == oky, "second session: same documents present")
+		if okx && oky {
+			assert(x.Checkpoint.SeqNo == y.Checkpoint.SeqNo && x.Checkpoint.VbUUID == y.Checkpoint.VbUUID &&
+				x.Checkpoint.Snapshot.StartSeqNo == y.Checkpoint.Snapshot.StartSeqNo && x.Checkpoint.Snapshot.EndSeqNo == y.Checkpoint.Snapshot.EndSeqNo,
+				"second session: read-only load is identical to the backend as it is now")
+		}
+	}
+	cover("readonly-second-session")
 }
 
 var _ = errors.New
